@@ -1044,6 +1044,11 @@ func (ps *prodScen) judge() {
 					got = fmt.Sprintf("m%d", idOfValue(rec.val))
 				}
 				cls = ps.historyClass()
+				if logHas(p, mi.id) {
+					cls += ",in-log-elsewhere"
+				} else {
+					cls += ",not-in-log"
+				}
 				if !logHas(p, mi.id) {
 					if c.Config.Idempotent {
 						r.violateClass("C05.success-not-in-log", cls, "m%d reported successful at %s@%d but the log does not contain it", mi.id, p.key(), ev.offset)
